@@ -188,3 +188,89 @@ example : ∃ d n, readXml C11Read.demoCycle "a.xsd" = .ok d ∧ lookupNs d "tns
   exact ⟨r.1, n, hd, hn, hu⟩
 
 end ZeepVerif.Props.C09All
+
+namespace ZeepVerif.Props.C09All
+open ZeepVerif ZeepVerif.Model ZeepVerif.Lemmas.Keeps Std.Do
+
+set_option mvcgen.warning false
+
+/-- what kind of component the reader makes of a node, by its tag -/
+def KindOfTag (tag : String) (rt : RType) : Prop :=
+  (tag = "complexType" ∨ tag = "group" → ∃ p, rt = .complex p) ∧ (tag = "simpleType" → ∃ p, rt = .simple p) ∧
+  (tag = "element" → ∃ p, rt = .element p)
+
+theorem tfn_kind (node : XNode) (ctx : Ctx) (fuel : Nat) :
+    ⦃fun _ => ⌜True⌝⦄ tryFromNode node ctx fuel ⦃post⟨fun r _ => ⌜KindOfTag node.tag r.rtype⌝, fun _ _ => ⌜True⌝⟩⦄ := by
+  have hT : DocInv (fun _ => True) := ⟨fun _ _ _ _ => trivial, fun _ _ _ => trivial, fun _ _ _ => trivial, fun _ _ _ => trivial, fun _ _ => trivial⟩
+  cases fuel with
+  | zero => mvcgen [tryFromNode]
+  | succ fuel =>
+    have hcpx := (block_keeps hT fuel).cpx
+    have helt := (block_keeps hT fuel).elt
+    have hsimple := fun node => keeps_simple hT node
+    unfold Keeps at hcpx helt hsimple
+    mvcgen [tryFromNode, switchToTargetNamespace, collectNamespacesOnNode, modifyDoc, getDoc, hcpx, helt, hsimple]
+    all_goals simp_all [KindOfTag]
+
+/-- **a lookup never returns a component of another kind**, every input: whatever `find_node_by_xml_name` returns for a
+    type reference is a complex or simple type, for an element reference a global element — whether it was found among the
+    components read so far or built from the XML tree for a forward reference -/
+theorem fnd_kind (ctx : Ctx) (x : String) (ns : Option Ns) (k : Kind) (fuel : Nat) :
+    ⦃fun _ => ⌜True⌝⦄ findNodeByXmlName ctx x ns k fuel
+    ⦃post⟨fun r _ => ⌜∀ rn, r = some rn → k.matchesType rn.rtype = true⌝, fun _ _ => ⌜True⌝⟩⦄ := by
+  cases fuel with
+  | zero => mvcgen [findNodeByXmlName]
+  | succ fuel =>
+    have hok : ∀ n c, ⦃fun _ => ⌜True⌝⦄ okOrNone (tryFromNode n c fuel)
+        ⦃post⟨fun r _ => ⌜∀ rn, r = some rn → KindOfTag n.tag rn.rtype⌝, fun _ _ => ⌜True⌝⟩⦄ := by
+      intro n c
+      have h := tfn_kind n c fuel
+      mvcgen [okOrNone, h]
+      all_goals simp_all
+    mvcgen [findNodeByXmlName, modifyDoc, getDoc, hok]
+    all_goals (try intros)
+    case vc1.succ.h_1 =>
+      rename_i _ nn hs rn hrn
+      cases hrn
+      unfold lookupRead at hs
+      have := List.find?_some hs
+      simp only [Bool.and_eq_true] at this
+      exact this.2
+    case vc2.succ.h_2.h_1 => rename_i h; cases h
+    case vc3.succ.h_2.h_2.isTrue => rename_i h; cases h
+    case vc4.succ.h_2.h_2.isFalse.success =>
+      rename_i n anc hfind _ _ _ r _ hk _ rn hrn
+      have hkind := hk rn hrn
+      -- the component found has a tag of the wanted kind
+      unfold findGlobalComponent at hfind
+      have hp := List.find?_some hfind
+      simp only at hp
+      have htag : k.matchesTag n.tag = true := by
+        cases hh : anc.head? with
+        | none => simp [hh] at hp
+        | some schema =>
+          simp only [hh, Bool.and_eq_true] at hp
+          exact hp.1.1.2
+      cases k with
+      | any => simp [Kind.matchesType]
+      | type =>
+        simp only [Kind.matchesTag, Bool.or_eq_true, beq_iff_eq] at htag
+        rcases htag with ht | ht
+        · obtain ⟨p, hp'⟩ := hkind.1 (Or.inl ht); simp [Kind.matchesType, hp']
+        · obtain ⟨p, hp'⟩ := hkind.2.1 ht; simp [Kind.matchesType, hp']
+      | element =>
+        simp only [Kind.matchesTag, beq_iff_eq] at htag
+        obtain ⟨p, hp'⟩ := hkind.2.2 htag
+        simp [Kind.matchesType, hp']
+
+/-- the same as a statement about a run -/
+theorem c09_lookup_kind_all_inputs (ctx : Ctx) (x : String) (ns : Option Ns) (k : Kind) (fuel : Nat) (d : Doc) (rn : RNode)
+    (h : (runNM (findNodeByXmlName ctx x ns k fuel) d).1 = .ok (some rn)) : k.matchesType rn.rtype = true := by
+  have := run_of_triple _ _ _ _ (fnd_kind ctx x ns k fuel) d trivial
+  revert this h
+  rcases runNM (findNodeByXmlName ctx x ns k fuel) d with ⟨r, d'⟩
+  cases r with
+  | ok a => intro h hh; cases h; exact hh rn rfl
+  | error e => intro h; cases h
+
+end ZeepVerif.Props.C09All
